@@ -362,8 +362,11 @@ class AnnotationsItem:
                     if end - index == 1:
                         blocks.append(r"[^/]*")
                     elif path[end : end + 1] == "/":
-                        # '**/' also matches zero directories.
-                        blocks.append(r"(?:.*/)?")
+                        # '**/' also matches zero directories. A run of them
+                        # matches what one of them matches (and is not left to
+                        # the backtracking of the matcher).
+                        if not blocks or blocks[-1] != r"(?:.*/)?":
+                            blocks.append(r"(?:.*/)?")
                         end += 1
                     else:
                         blocks.append(r".*")
